@@ -120,6 +120,10 @@ pub fn execute_propose(
     } else if comp.is_none() {
         return Err(ContractError::WrongExpiration {});
     }
+    // a proposal that is already expired can neither be voted on nor closed
+    if expires.is_expired(&env.block) {
+        return Err(ContractError::Expired {});
+    }
 
     // Take the cw20 token deposit, if required. We do this before
     // creating the proposal struct below so that we can avoid a clone
